@@ -155,6 +155,9 @@ def run_case(ctx, rep, spec, recipe, kept, serial, model, start=None, species=No
         with alarm(300), quiet(), pools.controlled(start=start):
             Chef(plotfile=path, recipe=rec, outfile=out, kept_fields=kept, serial=serial, **kw).cook()
     except Exception as e:
+        if spec.get("species_permuted") and isinstance(e, ValueError):
+            rep.count("permuted-species-refused")      # refusing a species block in another order than the mechanism's is fine
+            return
         rep.fail(f"chef raised {type(e).__name__}: {e}", case)
         return
     if not check:
@@ -254,6 +257,16 @@ def run(ctx, rep, model=True):
         recipe, kept, sp, rx = combos[i % len(combos)]
         run_case(ctx, rep, spec, recipe, kept, serial=(i % 2 == 0), model=model, species=sp, reactions=rx,
                  start=[None, pools.order_reversed][i % 2], pressure=[1.0, 3.0, 0.5, 1.0, 2.0][i % 5])
+        if i % 4 == 1:
+            # the species block in another order than the mechanism's (its first species still first): refuse, or evaluate
+            # every mass fraction under its own name
+            sp2 = copy.deepcopy(spec)
+            ys = [f for f in sp2["fields"] if f.startswith("Y(")]
+            perm = ys[:1] + ys[1:][::-1]
+            it = iter(perm)
+            sp2["fields"] = [next(it) if f.startswith("Y(") else f for f in sp2["fields"]]
+            sp2["species_permuted"] = True
+            run_case(ctx, rep, sp2, recipe if recipe != "rec3" else "ENT", kept, serial=(i % 2 == 1), model=False, species=sp, reactions=rx)
         if len(rep.violations) >= 10:
             return
 
